@@ -493,6 +493,8 @@ package service
 //@   trace[C08,marking-key-derived-once] exactly 1 hkdf.New
 //@   trace[C08,marking-key-depends-on-the-secret-alone] each hkdf.New satisfies $arg2 == nil && sameslice($arg3, serverSaltLabel)
 //@   trace[C08,no-randomness-in-the-marking-key] never rand.Read
+//@   trace[C08,marking-key-is-read-from-the-derivation] each io.ReadFull satisfies $arg0 == evres("hkdf.New", 0) && sameslice($arg1, key)
+//@   trace[C08,marking-key-filled-once] exactly 1 io.ReadFull
 //@   ensures result != nil && typeis(result, "service.serverSaltGenerator")
 
 //@ func (serverSaltGenerator).splitSalt
@@ -511,6 +513,10 @@ package service
 //@   params sg prefix
 //@   ensures len(result) == 20
 //@   trace[C08,C19,tag-computed-in-memory-of-this-call] each hash.Hash.Sum satisfies $arg0 == nil || private($arg0)
+//@   trace[C08,tag-keyed-with-the-marking-key-of-this-generator] each hmac.New satisfies sameslice($arg1, sg.key)
+//@   trace[C08,tag-is-over-the-prefix-given] each hash.Hash.Write satisfies sameslice($arg0, prefix) && $recv == evres("hmac.New", 0)
+//@   trace[C08,tag-is-the-digest-of-that-hash] each hash.Hash.Sum satisfies $recv == evres("hmac.New", 0)
+//@   trace[C08,one-keyed-hash-per-tag] holds evcount("hmac.New") == 1 && evcount("hash.Hash.Write") == 1 && evcount("hash.Hash.Sum") == 1
 
 //@ func (serverSaltGenerator).GetSalt
 //@   props C08 C18
@@ -749,6 +755,9 @@ package service
 //@   params h clientConn
 //@   requires validPacketHandler(h) && clientConn != nil
 //@   trace[C14,table-closed-at-exit] exactly 1 service.(*natmap).Close
+//@   trace[C14,C16,the-table-uses-the-handlers-timeout-and-metrics] each service.newNATmap satisfies $arg0 == h.natTimeout && $arg1 == h.m
+//@   trace[C04,one-table-per-receive-loop] exactly 1 service.newNATmap
+//@   trace[C14,the-table-closed-is-the-one-created] each service.(*natmap).Close satisfies $arg0 == evres("service.newNATmap", 0)
 //@   trace[C14,C18,the-receive-loop-ends-only-after-checking-the-read-error] before errors.Is service.(*natmap).Close
 //@   trace[C14,C18,checks-the-read-error-for-ErrClosed] each errors.Is satisfies $arg1 == net.ErrClosed && $arg0 == evres("net.PacketConn.ReadFrom", 2)
 //@   trace[C14,C18,a-transient-read-error-keeps-the-receive-loop-running] each errors.Is satisfies $res0 == false ==> evcount("service.(*natmap).Close") == 0
